@@ -70,7 +70,7 @@ def _unrepaired_model_agrees(lines, answers):
         f = ln.split('\t')
         if len(f) >= 3 and f[1] == 'set_max_nodes':
             (capped.discard if f[2] == 'max' else capped.add)(f[0])
-        if len(f) >= 2 and f[0] in capped and f[1] in ('foa', 'ite', 'var', 'apply', 'quantify'):
+        if len(f) >= 2 and f[0] in capped and f[1] in ('foa', 'ite', 'var', 'apply', 'quantify', 'cofactor', 'let_b'):
             f[1] += '_old'
         out_lines.append('\t'.join(f))
     try:
@@ -114,6 +114,11 @@ class _Scn:
             return ('foa', i, v if rng.random() < 0.5 else -v, w if rng.random() < 0.7 else -w)
         g, u, v = self.pick(), self.pick(), self.pick()
         k = rng.random()
+        if r < 0.35:
+            # `cofactor` / `let` with Boolean values (the model with capacity: `cofactorCapL`)
+            q = rng.sample(self.names, rng.randint(1, min(3, len(self.names))))
+            return (rng.choice(['cofactor', 'let_b']), u,
+                    ','.join(f'n:{x}={rng.choice([0, 1])}' for x in q))
         if r < 0.4:
             # `quantify` over names (the model with capacity: `quantifyCapL`)
             q = rng.sample(self.names, rng.randint(1, min(3, len(self.names))))
@@ -136,7 +141,12 @@ class _Scn:
     def quant_call(self):
         rng = self.rng
         u, v = self.pick(), self.pick()
-        if rng.random() < 0.5:
+        k = rng.random()
+        if k < 0.3:
+            q = rng.sample(self.names, rng.randint(1, min(3, len(self.names))))
+            return (rng.choice(['cofactor', 'let_b']), u,
+                    ','.join(f'n:{x}={rng.choice([0, 1])}' for x in q))
+        if k < 0.65:
             return ('apply', rng.choice(QUANT), u, v)
         q = rng.sample(self.names, rng.randint(1, min(3, len(self.names))))
         return ('quantify', u, ','.join('n:' + x for x in q), rng.choice([0, 1]))
